@@ -221,6 +221,7 @@ def check(chk):
     _wakeups(chk, repo)
     _request_loop_and_self_cancel(chk, repo)
     _actuation_and_playfield_requests(chk, repo)
+    _claims_follow_the_balls(chk, repo)
 
     # ------------------------------------------------------------- BOOL-1
     n_h = 0
@@ -385,6 +386,31 @@ def _actuation_and_playfield_requests(chk, repo):
         chk.ob("REQ-5", "the player-controlled route asks once per requested ball (loop over range(balls))", ok, f.where(c), construct=f.ident,
                detail="setup_player_controlled_eject sets up one eject; without the loop add_ball(balls=N) delivers one ball and reports success",
                text="add_ball player-controlled once per ball")
+
+
+def _claims_follow_the_balls(chk, repo):
+    """CLAIMS-5: requests are sized by what a device says it has (available_balls) and by what a multiball says it adds (balls_added_live);
+    both follow the balls on every path.  A ball reported lost lowers the device's available balls whatever state the device is in (the
+    report after an eject comes in state ball_left): a phantom available ball makes a later request wait for ever in an empty device.  A
+    multiball that counts the balls it replaces into play also asks for them - under both count policies."""
+    f = repo.func(BD, "BallDevice.lost_idle_ball")
+    chk.analysed(f)
+    cfg = f.cfg()
+    dec = [n.id for n in cfg.nodes if n.kind == "stmt" and isinstance(n.ast, ast.AugAssign) and src(n.ast.target) == "self.available_balls" and isinstance(n.ast.op, ast.Sub) and
+           src(n.ast.value) == "1"]
+    w = cfg.must_pass(cfg.entry.id, dec) if dec else [cfg.entry.id]
+    chk.ob("CLAIMS-5", "a ball reported lost lowers the device's available balls on every path (whatever the device state)", w is None, f.where(), construct=f.ident,
+           text="lost ball still available", path=cfg.fmt_path(w, f) if w and len(w) > 1 else None, nontrivial=True)
+    MB = "mpf/devices/multiball.py"
+    g = repo.func(MB, "Multiball._handle_balls_in_play_and_balls_live")
+    chk.analysed(g)
+    gcfg = g.cfg()
+    rep = [n for n in gcfg.nodes if n.kind == "stmt" and isinstance(n.ast, ast.AugAssign) and src(n.ast.target) == "self.balls_added_live" and isinstance(n.ast.op, ast.Add) and
+           src(n.ast.value) == "balls_to_replace"]
+    chk.need(rep, "CLAIMS-5", "the multiball asks for the balls it replaces (balls_added_live += balls_to_replace)", g)
+    w = gcfg.must_pass(gcfg.entry.id, [n.id for n in rep])
+    chk.ob("CLAIMS-5", "the replaced balls are added to the multiball's request under both count policies (total and add)", w is None, g.where(rep[0].ast), construct=g.ident,
+           detail="guards %s" % sorted(gcfg.guards_at(rep[0].id).items()), text="replaced balls requested", path=gcfg.fmt_path(w, g) if w else None, nontrivial=True)
 
 
 def _requests_sized_by_unclaimed(chk, repo):
@@ -744,6 +770,8 @@ def canon_guard_only(g, text):
 def battery():
     from sa.battery import M
     return [
+        M("lost ball stays available unless the device was idle", BD, "            self.warning_log(\"Ball disappeared while idle. This should not normally happen.\")\n        self.available_balls -= 1", "            self.warning_log(\"Ball disappeared while idle. This should not normally happen.\")\n            self.available_balls -= 1", "CLAIMS-5"),
+        M("replaced balls requested under the add policy only", "mpf/devices/multiball.py", "            self.balls_live_target = self.machine.game.balls_in_play\n\n        self.balls_added_live += balls_to_replace", "            self.balls_live_target = self.machine.game.balls_in_play\n            self.balls_added_live += balls_to_replace", "CLAIMS-5"),
         M("already-left tracker only ended on success", OB, "                    await self.ball_device.ball_count_handler.end_eject(ball_eject_process, result)\n                    if result:\n                        continue", "                    if result:\n                        await self.ball_device.ball_count_handler.end_eject(ball_eject_process, True)\n                        continue", "PAIR-5"),
         M("timeout leaves tracker open", OB, "                # timeout. ball did not leave. failed\n                await self.ball_device.ball_count_handler.end_eject(ball_eject_process, False)\n                return False", "                # timeout. ball did not leave. failed\n                return False", "PAIR-5"),
         M("cancel does not cancel tracker", OB, "        except asyncio.CancelledError:\n            ball_eject_process.cancel()\n            raise", "        except asyncio.CancelledError:\n            raise", "PAIR-5"),
